@@ -88,11 +88,15 @@ static void do_op(void *arg) {
     case OP_CONDBAR: {
       long phase = 0;
       for (long j = 3; j <= c->i; j += 4) if (op_of(c->t, j) == OP_CONDBAR) phase++;
+      /* the last arriver broadcasts either while it holds the mutex or after it released it (both legal) */
+      int outside = (int)(wl_mix(P[Q_SEED], 9100 + phase) & 1), last;
       myth_mutex_lock(&CM);
       cond_arrived++;
-      if (cond_arrived == phase * NT) myth_cond_broadcast(&CC);
+      last = (cond_arrived == phase * NT);
+      if (last) { if (!outside) myth_cond_broadcast(&CC); }
       else while (cond_arrived < phase * NT) myth_cond_wait(&CC, &CM);
       myth_mutex_unlock(&CM);
+      if (last && outside) { mvsim_user_point(); myth_cond_broadcast(&CC); }
       break;
     }
     case OP_UNCOND: uc_exchange((int)(c->t / 2), (int)(c->t & 1) == 0, c->i); break;
